@@ -7,6 +7,8 @@ import (
 	"strings"
 	"testing"
 	"time"
+	"unicode"
+	"unicode/utf8"
 
 	hessian "github.com/vogo/gohessian"
 	"pgregory.net/rapid"
@@ -188,10 +190,10 @@ func c05Render(v reflect.Value, plan c05Plan) (*av.V, interface{}) {
 	for w, fi := range plan.order {
 		addExtras(w)
 		name := full.Fields[fi]
-		if w < len(plan.upper) && plan.upper[w] && name[0] < 0x80 {
-			// (the statement's "first letter case-insensitively" is about ASCII letters: a name that begins
-			// with another letter is sent as it is)
-			name = strings.ToUpper(name[:1]) + name[1:]
+		if w < len(plan.upper) && plan.upper[w] {
+			// "first letter case-insensitively": the first letter, of whatever alphabet
+			fr, size := utf8.DecodeRuneInString(name)
+			name = string(unicode.ToUpper(fr)) + name[size:]
 		}
 		obj.Fields = append(obj.Fields, name)
 		obj.Elems = append(obj.Elems, full.Elems[fi])
